@@ -152,8 +152,6 @@ class Check:
     def finish(self, write=True, quiet=False):
         """Classify violations against known findings, write evidence, print
         the verdict lines; return the exit status."""
-        if self.floor_errors and not self.violations:
-            raise AnalysisError('; '.join(self.floor_errors))
         known = [k for k in load_known_findings()
                  if k.get('property') == self.prop]
         listed, unlisted = [], []
@@ -167,6 +165,10 @@ class Check:
                     hit = k
                     break
             (listed if hit else unlisted).append((v, hit))
+        if self.floor_errors and not unlisted:
+            # a missing instance next to an (unlisted) violation is reported
+            # as the violation; alone it is analysis-broken
+            raise AnalysisError('; '.join(self.floor_errors))
         lines = []
         for v, k in listed:
             lines.append('KNOWN-FINDING: property=%s %s (%s in %s: %s)' % (
